@@ -1919,6 +1919,7 @@ func postRepoLogHandler(c web.C, w http.ResponseWriter, r *http.Request) {
 	logdata, ok := jsonData["log"]
 	if !ok {
 		BadRequest(w, r, "Could not find 'log' value in POSTed JSON.")
+		return
 	}
 	if err := datastore.AddToRepoLog(uuid, logdata); err != nil {
 		BadRequest(w, r, err)
@@ -1977,6 +1978,7 @@ func postNodeNoteHandler(c web.C, w http.ResponseWriter, r *http.Request) {
 	note, ok := jsonData["note"]
 	if !ok {
 		BadRequest(w, r, "Could not find 'note' value in POSTed JSON.")
+		return
 	}
 	if err := datastore.SetNodeNote(uuid, note); err != nil {
 		BadRequest(w, r, err)
@@ -2006,6 +2008,7 @@ func postNodeLogHandler(c web.C, w http.ResponseWriter, r *http.Request) {
 	logdata, ok := jsonData["log"]
 	if !ok {
 		BadRequest(w, r, "Could not find 'log' value in POSTed JSON.")
+		return
 	}
 	if err := datastore.AddToNodeLog(uuid, logdata); err != nil {
 		BadRequest(w, r, err)
